@@ -6,6 +6,7 @@
 From SV Require Import Model.Rows Model.Chunk Model.OverlapKernels Model.Overlap.
 From SV Require Import Spec.WindowLocal Spec.OverlapSpec.
 From SV Require Import Proof.OverlapBasic Proof.OverlapProof Proof.WindowLocalProof Proof.OverlapExamples.
+From SV Require Import Proof.OverlapAligned.
 
 (* For disjoint sorted positive-length input rows R, EVERY contiguous well-formed chunking cs of the
    run (chunks shorter than the window, rows longer than the window, empty and zero-duration chunks),
@@ -33,6 +34,14 @@ Theorem C09_neighbour_count_window_local : forall kl kr,
   0 <= kl -> 0 <= kr -> window_local kl kr (f_count kl kr).
 Proof. exact f_count_window_local. Qed.
 Print Assumptions C09_neighbour_count_window_local.
+
+(* Multi-output plugins (cache_beyond over several outputs), for ANY user computations and any input:
+   whenever iter completes, all chunks of one yielded item (including the final flush) share one
+   start and one end. *)
+Theorem C09_overlap_multi_output_aligned : forall P cs items,
+  ow_iter P cs = Ok items -> Forall item_aligned items.
+Proof. exact overlap_items_aligned. Qed.
+Print Assumptions C09_overlap_multi_output_aligned.
 
 (* DESIGN section 7, T6: the final `yield self.cached_results` never yields None, and a run with no
    input chunk fails (ValueError "Cannot work with empty input buffer") before reaching it. *)
